@@ -13,7 +13,7 @@ import (
 	"verif/harness/internal/stats"
 )
 
-const ruleStock = "rapid: 2-4 pipelines [JSONFormatter, FileSink] whose FileSinks are distinct nodes that share a directory (different file names, some prefixes of one another) or, per draw, use directories of their own; after one event each, every active log file is moved away (as logrotate does) and Broker.Reopen is called once; oracle = Reopen returns nil and, since a FileSink's Reopen re-creates its file, every sink's file exists again (Reopen reached every node); a further event lands in the new file; non-trivial = at least two sinks share a directory; distinct = configuration"
+const ruleStock = "rapid: 2-4 pipelines [JSONFormatter, FileSink] whose FileSinks are distinct nodes that share a directory (different file names, some prefixes of one another) or, per draw, use directories of their own; after one event each, every active log file is moved away (as logrotate does) and Broker.Reopen is called once; oracle = Reopen returns nil and the next event of every pipeline lands in a new file of the configured name, not in the moved-away one (a FileSink that was not reopened keeps writing to the file it holds); non-trivial = at least two sinks share a directory; distinct = configuration"
 
 // TestC20StockFileSinks: "invokes Reopen at least once on every node", observed through what the library's own sink does.
 func TestC20StockFileSinks(t *testing.T) {
@@ -74,20 +74,25 @@ func TestC20StockFileSinks(t *testing.T) {
 		if err := b.Reopen(ctx); err != nil {
 			t.Fatalf("VIOLATION C20: Reopen failed although no node fails: %v\ncase: %s", err, d)
 		}
+		// a FileSink that was reopened writes to a file of the configured name again (whether it re-creates the file at
+		// Reopen or at the next write is its own business); one that was not still holds the moved-away file
+		sizes := map[string]int64{}
+		for _, f := range files {
+			if st, err := os.Stat(f + ".1"); err == nil {
+				sizes[f] = st.Size()
+			}
+		}
+		send()
 		var missing []string
 		for _, f := range files {
-			if _, err := os.Stat(f); err != nil {
+			st, err := os.Stat(f)
+			moved, _ := os.Stat(f + ".1")
+			if err != nil || st.Size() == 0 || (moved != nil && moved.Size() != sizes[f]) {
 				missing = append(missing, filepath.Base(f))
 			}
 		}
 		if len(missing) > 0 {
-			t.Fatalf("VIOLATION C20: after Broker.Reopen returned nil the log file(s) %s were not re-created: the FileSink node(s) writing them were not reopened (every sink's file had been moved away)\ncase: %s", strings.Join(missing, ", "), d)
-		}
-		send()
-		for _, f := range files {
-			if st, err := os.Stat(f); err != nil || st.Size() == 0 {
-				t.Fatalf("VIOLATION C20: an event sent after Reopen did not land in the re-created file %s\ncase: %s", filepath.Base(f), d)
-			}
+			t.Fatalf("VIOLATION C20: every sink's log file had been moved away, Broker.Reopen returned nil, yet the next event did not land in a new file named %s (it went to the moved-away file or nowhere): the FileSink node(s) writing them were not reopened\ncase: %s", strings.Join(missing, ", "), d)
 		}
 		sec.Case(shared, d, fmt.Sprintf("shared=%v", shared))
 	})
